@@ -36,6 +36,7 @@ def _unwrap(e):
 
 class ElemExec:
     def __init__(self, tu, where="", consts: dict | None = None, max_inline=3, null_pointers=(), nonnull_pointers=(), opaque=(), opaque_out: dict | None = None, call_hook=None, opaque_merge=False):
+        self.ignore_continue = False  # model `continue` at the end of an arm of a data-dependent if (the rest of the block becomes the other arm)
         self.call_hook = call_hook  # call_hook(callee name, inlined value, state) -> replacement value | None
         self.opaque_merge = opaque_merge  # a scalar assigned under a data-dependent condition becomes a fresh opaque symbol afterwards (instead of having no value)
         self._fresh = 0
@@ -349,9 +350,6 @@ class State:
             lvs = tuple(lv for lv, _, _ in self.loopvars)
             idx_syms = set().union(*[x.free_symbols for x in idx]) if idx else set()
             ckey = (base, tuple(str(x) for x in idx))
-            if self.guards and op == "=" and (base in self.alias or base not in self.local_arrays or not self.ex.opaque_merge) and self.glevel.get(ckey, -1) < len(self.guards) and any(tuple(str(x) for x in pat) == ckey[1] for pat, _, _ in self.cells.get(base, [])):
-                # the cell already has a value from outside the condition: afterwards it would be a mixture
-                raise AnalysisError(f"{self.ex.where}::{self.fname}: plain store into '{base}' under a data-dependent condition is outside the modelled fragment")
             if self.guards and op == "=" and (base in self.alias or base not in self.local_arrays):
                 raise AnalysisError(f"{self.ex.where}::{self.fname}: plain store into '{base}' under a data-dependent condition is outside the modelled fragment")
             if self.guards and op in ("+=", "-="):
@@ -360,6 +358,8 @@ class State:
                 new = val
                 self.level[ckey] = len(self.loopvars)
                 self.glevel[ckey] = len(self.guards)
+                if getattr(self, "_plain_cells", None) is not None:
+                    self._plain_cells.append((base, idx, tuple(lv for lv in lvs if lv in idx_syms)))
             else:
                 cur = self.read_cell(base, idx)
                 lvl = self.level.get(ckey, 0)
@@ -447,7 +447,7 @@ class State:
 
     def _block2(self, stmts) -> bool:
         pushed = 0
-        for s in stmts:
+        for idx_s, s in enumerate(stmts):
             k = s.get("kind")
             ks = cast.kids(s)
             if k == "DeclStmt":
@@ -461,6 +461,11 @@ class State:
                 continue
             if k == "NullStmt":
                 continue
+            if k == "ContinueStmt" and self.ex.ignore_continue:
+                # `continue` ends this path through the loop body: the data-dependent if statement it belongs to takes
+                # the rest of the enclosing block as its other arm
+                self._cont_hit = True
+                return True
             if k == "BinaryOperator" and s.get("opcode") == "=":
                 rhs = _unwrap(ks[1])
                 if rhs.get("kind") == "CallExpr" and cast.callee_name(rhs) in ("malloc", "calloc"):
@@ -530,13 +535,33 @@ class State:
                 before = dict(self.scalars)
                 g_ = self.cond_factor(ks[0], True)
                 log_outer = getattr(self, "_plain_log", None)
+                clog_outer = getattr(self, "_plain_cells", None)
+                cells_before = {b_: list(v_) for b_, v_ in self.cells.items()}
                 self._plain_log = set()
+                self._plain_cells = []
+                self._cont_hit = False
                 self.guards.append(g_)
                 self.block([then])
                 self.guards.pop()
+                consumed_rest = False
+                if getattr(self, "_cont_hit", False):
+                    # if (c) { ...; continue; } REST   ==   if (c) { ... } else { [else arm;] REST }
+                    self._cont_hit = False
+                    rest_ = list(stmts[idx_s + 1:])
+                    els = {"kind": "CompoundStmt", "inner": ([els] if els is not None else []) + rest_}
+                    consumed_rest = True
                 plain_t, s_then = self._plain_log, dict(self.scalars)
+                cplain_t, cells_then = self._plain_cells, {b_: list(v_) for b_, v_ in self.cells.items()}
+                cplain_e, cells_else = [], None
                 plain_e, s_else = set(), None
                 if els is not None:
+                    for b_ in {c_[0] for c_ in cplain_t}:
+                        # the else arm starts from the cells as they were before the statement
+                        if b_ in cells_before:
+                            self.cells[b_] = list(cells_before[b_])
+                        else:
+                            self.cells.pop(b_, None)
+                    self._plain_cells = []
                     # the else arm starts from the values before the statement, except for what the then arm
                     # accumulated (already weighted by its indicator)
                     for nm_ in plain_t:
@@ -549,7 +574,44 @@ class State:
                     self.block([els])
                     self.guards.pop()
                     plain_e, s_else = self._plain_log, dict(self.scalars)
+                    cplain_e, cells_else = self._plain_cells, {b_: list(v_) for b_, v_ in self.cells.items()}
                 self._plain_log = log_outer
+                self._plain_cells = clog_outer
+                # array cells plainly stored under the condition: afterwards the indicator-weighted mixture of the arms
+                if cplain_t or cplain_e:
+                    def _lookup(snapshot, base_, idx_):
+                        keep = self.cells
+                        self.cells = snapshot
+                        try:
+                            v_ = self.read_cell(base_, idx_)
+                        except AnalysisError:
+                            v_ = None
+                        finally:
+                            self.cells = keep
+                        if v_ is not None and any(getattr(f_.func, "__name__", "").startswith("uninitialised_") for f_ in v_.atoms(sp.Function)):
+                            return None
+                        return v_
+
+                    after = {b_: list(v_) for b_, v_ in self.cells.items()}
+                    done = set()
+                    for base_, idx_, lvs_ in cplain_t + cplain_e:
+                        key_ = (base_, tuple(str(x) for x in idx_))
+                        if key_ in done:
+                            continue
+                        done.add(key_)
+                        if clog_outer is not None:
+                            clog_outer.append((base_, idx_, lvs_))
+                        in_t = any((b2, tuple(str(x) for x in i2)) == key_ for b2, i2, _ in cplain_t)
+                        in_e = any((b2, tuple(str(x) for x in i2)) == key_ for b2, i2, _ in cplain_e)
+                        t_ = _lookup(cells_then if in_t else cells_before, base_, idx_)
+                        e_ = _lookup((cells_else if in_e else (cells_else if cells_else is not None else cells_before)) if (in_e or cells_else is not None) else cells_before, base_, idx_)
+                        if base_ in self.alias or base_ not in self.local_arrays:
+                            # an output / input array: handled (refused) by store(); nothing to merge here
+                            continue
+                        if t_ is None or e_ is None:
+                            continue  # written in one arm only and undefined before: a temporary of that arm
+                        if t_ != e_:
+                            self.cells.setdefault(base_, []).append((idx_, lvs_, sp.expand(g_ * t_ + (1 - g_) * e_)))
                 # a scalar plainly assigned under the condition: afterwards it is the indicator-weighted mixture of
                 # the two arms (the value before the statement where an arm does not assign it)
                 for nm_ in plain_t | plain_e:
@@ -572,6 +634,8 @@ class State:
                         continue
                     self.scalars[nm_] = t_ if t_ == e_ else sp.expand(g_ * t_ + (1 - g_) * e_)
                     self.level[nm_] = min(self.level.get(nm_, len(self.loopvars)), len(self.loopvars))
+                if consumed_rest:
+                    return False
                 continue
             if k == "CallExpr":
                 nm = cast.callee_name(s)
